@@ -809,7 +809,7 @@ func c07(c *core.Ctx) {
 				continue
 			}
 			n++
-			checkPairing(c, fn, snaps, core.CallsIn(fn, revM...), isStep, isWrite)
+			checkPairing(c, fn, snaps, core.CallsIn(fn, revM...), isStep, isWrite, revM...)
 		}
 		c.Floor("functions-taking-snapshots", n, 7)
 	})
@@ -1061,7 +1061,7 @@ func lenGuards(fn *ssa.Function, field *types.Var) []lenGuard {
 // return must pass RevertToSnapshot(snapshot) on all paths from that edge to the return — for the calls in `guarded` position:
 // the execution step (a call that itself runs code: run, applyTx, …) identified as the calls dominated by the snapshot whose failing edge
 // reaches at least one revert. Additionally at least one revert with the same snapshot value must exist per snapshot.
-func checkPairing(c *core.Ctx, fn *ssa.Function, snaps, revs []ssa.CallInstruction, isStep, isWrite func(ssa.CallInstruction) bool) {
+func checkPairing(c *core.Ctx, fn *ssa.Function, snaps, revs []ssa.CallInstruction, isStep, isWrite func(ssa.CallInstruction) bool, revM ...*types.Func) {
 	name := shortFn(fn)
 	for i, s := range snaps {
 		key := name + "#snapshot" + string(rune('a'+i))
@@ -1074,7 +1074,18 @@ func checkPairing(c *core.Ctx, fn *ssa.Function, snaps, revs []ssa.CallInstructi
 				mine = append(mine, r)
 			}
 		}
-		if !c.Check(key+":has-revert", "pairing", len(mine) >= 1, s.Pos(), "%s takes a snapshot and reverts to that same snapshot somewhere (%d reverts use it)", name, len(mine)) {
+		// helper form of the idiom: h(snapshot, err) reverts when err is non-nil
+		type condRev struct {
+			call ssa.CallInstruction
+			errv ssa.Value
+		}
+		var helpers []condRev
+		for _, ci := range core.AllCalls(fn) {
+			if sv2, ev2, is := condRevertCall(ci, revM...); is && (d[sv2] || core.Slice(sv2)[sv]) {
+				helpers = append(helpers, condRev{ci, ev2})
+			}
+		}
+		if !c.Check(key+":has-revert", "pairing", len(mine)+len(helpers) >= 1, s.Pos(), "%s takes a snapshot and reverts to that same snapshot somewhere (%d reverts use it)", name, len(mine)+len(helpers)) {
 			continue
 		}
 		var revBlocks []*ssa.BasicBlock
@@ -1099,7 +1110,21 @@ func checkPairing(c *core.Ctx, fn *ssa.Function, snaps, revs []ssa.CallInstructi
 			}
 			tests := core.TestsOf(ev, core.ErrNonNil)
 			if len(tests) == 0 {
-				continue // error handed on untested: the caller's pairing decides
+				// handed to a conditional reverter that every path from the step passes?
+				viaHelper, okHelper := false, false
+				for _, h := range helpers {
+					if core.Derived(ev)[h.errv] || h.errv == ev {
+						viaHelper = true
+						if core.AlwaysFollowedBy(ci, h.call) {
+							okHelper = true
+						}
+					}
+				}
+				if viaHelper {
+					steps++
+					c.Check(key+":"+callee+"-failure→revert", "pairing", okHelper, ci.Pos(), "in %s every path from %s to a return passes the helper that reverts to the snapshot when the step's error is non-nil", name, callee)
+				}
+				continue // otherwise: error handed on untested, the caller's pairing decides
 			}
 			steps++
 			ok := true
